@@ -58,7 +58,7 @@ type LimScenario struct {
 	TPs    []LimTP  `json:"tps,omitempty"` // generated limit parameters replacing those of the built-in list (nil = built-in list)
 	TPRot  int      `json:"tp_rot,omitempty"`
 	Push   string   `json:"push"`
-	Accept string   `json:"accept"` // client application: none | all (accepts streams, never reads)
+	Accept string   `json:"accept"`           // client application: none | all (accepts streams, never reads)
 	Reader string   `json:"reader,omitempty"` // "" = stalled reader; "slow" = the client reads everything and the server sends more than one window (single-stream pushers)
 	Faulty bool     `json:"faulty,omitempty"`
 }
